@@ -53,3 +53,230 @@ Definition builder_nest : expr :=
 Lemma builder_nest_ok :
   wf builder_nest /\ psum_freeb (model_expression builder_nest) = true.
 Proof. split; vm_compute; reflexivity. Qed.
+
+(* ------------------------------------------------------------------ *)
+(* completeness of the unfolding loop on flat accumulators             *)
+(* ------------------------------------------------------------------ *)
+Lemma list_eqb_refl {X} (eqb : X -> X -> bool) l :
+  Forall (fun x => eqb x x = true) l -> list_eqb eqb l l = true.
+Proof. induction 1; cbn; auto. now rewrite H, IHForall. Qed.
+
+Lemma expr_eqb_refl a : expr_eqb a a = true.
+Proof.
+  induction a using expr_ind2; cbn [expr_eqb].
+  - apply String.eqb_refl.
+  - now rewrite Z.eqb_refl, Pos.eqb_refl.
+  - now apply list_eqb_refl.
+  - now apply list_eqb_refl.
+  - now rewrite IHa1, IHa2.
+  - rewrite String.eqb_refl. now apply list_eqb_refl.
+  - rewrite IHa. apply list_eqb_refl. eapply Forall_impl; [|exact H].
+    intros [k vs] Hvs. cbn [fst snd] in *. rewrite String.eqb_refl. now apply list_eqb_refl.
+Qed.
+
+Lemma map_id_in {X} (f : X -> X) l : (forall x, In x l -> f x = x) -> map f l = l.
+Proof. intros H. induction l; cbn; auto. rewrite H, IHl; cbn; auto. intros; apply H; cbn; auto. Qed.
+
+Lemma xreplace_psum_free_id kb kidx v t :
+  psum_freeb t = true -> xreplace [(PSum kb kidx, v)] t = t.
+Proof.
+  induction t using expr_ind2; cbn [psum_freeb]; intros Hp; try discriminate; cbn [xreplace lookup expr_eqb]; auto.
+  - f_equal. apply map_id_in. rewrite forallb_forall in Hp. rewrite Forall_forall in H. auto.
+  - f_equal. apply map_id_in. rewrite forallb_forall in Hp. rewrite Forall_forall in H. auto.
+  - apply andb_true_iff in Hp as [H1 H2]. now rewrite IHt1, IHt2.
+  - f_equal. apply map_id_in. rewrite forallb_forall in Hp. rewrite Forall_forall in H. auto.
+Qed.
+
+Lemma depth0_psum_free e : depth e = 0 -> psum_freeb e = true.
+Proof.
+  induction e using expr_ind2; cbn [depth psum_freeb]; intros Hd; auto; try discriminate.
+  - apply forallb_forall. intros x Hx. rewrite Forall_forall in H. apply H; auto.
+    assert (depth x <= lmax (map depth l)) by (apply lmax_ge, in_map; auto). lia.
+  - apply forallb_forall. intros x Hx. rewrite Forall_forall in H. apply H; auto.
+    assert (depth x <= lmax (map depth l)) by (apply lmax_ge, in_map; auto). lia.
+  - rewrite IHe1, IHe2; auto; lia.
+  - apply forallb_forall. intros x Hx. rewrite Forall_forall in H. apply H; auto.
+    assert (depth x <= lmax (map depth l)) by (apply lmax_ge, in_map; auto). lia.
+Qed.
+
+Lemma flat_map_all_nil {X Y} (f : X -> list Y) l : (forall x, In x l -> f x = []) -> flat_map f l = [].
+Proof.
+  induction l; cbn; intros H; auto. rewrite (H a) by auto. rewrite IHl; auto.
+Qed.
+
+Lemma psum_free_nodes e : psum_freeb e = true -> psum_nodes e = [].
+Proof.
+  induction e using expr_ind2; cbn [psum_freeb psum_nodes]; intros Hp; auto; try discriminate.
+  - rewrite forallb_forall in Hp. rewrite Forall_forall in H. apply flat_map_all_nil. auto.
+  - rewrite forallb_forall in Hp. rewrite Forall_forall in H. apply flat_map_all_nil. auto.
+  - apply andb_true_iff in Hp as [H1 H2]. now rewrite IHe1, IHe2.
+  - rewrite forallb_forall in Hp. rewrite Forall_forall in H. apply flat_map_all_nil. auto.
+Qed.
+
+Lemma flat_map_nil {X Y} (f : X -> list Y) l : flat_map f l = [] -> forall x, In x l -> f x = [].
+Proof.
+  induction l; cbn; intros E x Hx; [tauto|]. apply app_eq_nil in E as [E1 E2].
+  destruct Hx as [<-|Hx]; auto.
+Qed.
+
+Lemma nodes_nil_psum_free e : psum_nodes e = [] -> psum_freeb e = true.
+Proof.
+  induction e using expr_ind2; cbn [psum_freeb psum_nodes]; intros Hn; auto.
+  - apply forallb_forall. intros x Hx. rewrite Forall_forall in H. apply H; auto.
+    eapply flat_map_nil in Hn; eauto.
+  - apply forallb_forall. intros x Hx. rewrite Forall_forall in H. apply H; auto.
+    eapply flat_map_nil in Hn; eauto.
+  - apply app_eq_nil in Hn as [H1 H2]. now rewrite IHe1, IHe2.
+  - apply forallb_forall. intros x Hx. rewrite Forall_forall in H. apply H; auto.
+    eapply flat_map_nil in Hn; eauto.
+  - apply app_eq_nil in Hn as [_ Hn]. apply app_eq_nil in Hn as [_ Hn]. discriminate.
+Qed.
+
+Lemma psum_parts_free b idx :
+  depth (PSum b idx) <= 1 ->
+  psum_freeb b = true /\ forall p v, In p idx -> In v (snd p) -> psum_freeb v = true.
+Proof.
+  cbn [depth]. intros Hd. split.
+  - apply depth0_psum_free. lia.
+  - intros p v Hp Hv. apply depth0_psum_free.
+    assert (lmax (map depth (snd p)) <= lmax (map (fun p => lmax (map depth (snd p))) idx)).
+    { apply lmax_ge. apply in_map_iff. eauto. }
+    assert (depth v <= lmax (map depth (snd p))) by (apply lmax_ge, in_map; auto). lia.
+Qed.
+
+Lemma flat_PSum_nodes b idx : depth (PSum b idx) <= 1 -> psum_nodes (PSum b idx) = [PSum b idx].
+Proof.
+  intros Hd. destruct (psum_parts_free _ _ Hd) as [Hb Hv]. cbn [psum_nodes].
+  rewrite psum_free_nodes by auto. cbn [app].
+  rewrite flat_map_all_nil; auto.
+  intros p Hp. apply flat_map_all_nil. intros v Hv'. apply psum_free_nodes. eauto.
+Qed.
+
+
+(* one step of the loop on a flat accumulator *)
+Lemma xreplace_flat_step kb kidx v acc :
+  psum_freeb v = true -> depth acc <= 1 ->
+  depth (xreplace [(PSum kb kidx, v)] acc) <= 1 /\ forall n, In n (psum_nodes (xreplace [(PSum kb kidx, v)] acc)) ->
+            In n (psum_nodes acc) /\ n <> PSum kb kidx.
+Proof.
+  intros Pv. set (k := PSum kb kidx).
+  induction acc using expr_ind2; intros Hd.
+  - cbn. split; [lia|tauto].
+  - cbn. split; [lia|tauto].
+  - cbn [xreplace lookup expr_eqb k]. cbn [depth psum_nodes] in *. rewrite Forall_forall in H.
+    assert (Hx : forall x, In x l -> depth x <= 1).
+    { intros x Hx. assert (depth x <= lmax (map depth l)) by (apply lmax_ge, in_map; auto). lia. }
+    split.
+    + apply lmax_le. intros d Hin. apply in_map_iff in Hin as [y [<- Hy]].
+      apply in_map_iff in Hy as [x [<- Hxl]]. apply H; auto.
+    + intros n Hn. apply in_flat_map in Hn as [y [Hy Hn]]. apply in_map_iff in Hy as [x [<- Hxl]].
+      destruct (H x Hxl (Hx x Hxl)) as [_ Hq]. destruct (Hq n Hn). split; auto.
+      apply in_flat_map. eauto.
+  - cbn [xreplace lookup expr_eqb k]. cbn [depth psum_nodes] in *. rewrite Forall_forall in H.
+    assert (Hx : forall x, In x l -> depth x <= 1).
+    { intros x Hx. assert (depth x <= lmax (map depth l)) by (apply lmax_ge, in_map; auto). lia. }
+    split.
+    + apply lmax_le. intros d Hin. apply in_map_iff in Hin as [y [<- Hy]].
+      apply in_map_iff in Hy as [x [<- Hxl]]. apply H; auto.
+    + intros n Hn. apply in_flat_map in Hn as [y [Hy Hn]]. apply in_map_iff in Hy as [x [<- Hxl]].
+      destruct (H x Hxl (Hx x Hxl)) as [_ Hq]. destruct (Hq n Hn). split; auto.
+      apply in_flat_map. eauto.
+  - cbn [xreplace lookup expr_eqb k]. cbn [depth psum_nodes] in *.
+    destruct IHacc1 as [D1 N1]; [lia|]. destruct IHacc2 as [D2 N2]; [lia|]. split; [lia|].
+    intros n Hn. apply in_app_or in Hn as [Hn|Hn]; [destruct (N1 n Hn)|destruct (N2 n Hn)];
+      split; auto; apply in_or_app; auto.
+  - cbn [xreplace lookup expr_eqb k]. cbn [depth psum_nodes] in *. rewrite Forall_forall in H.
+    assert (Hx : forall x, In x l -> depth x <= 1).
+    { intros x Hx. assert (depth x <= lmax (map depth l)) by (apply lmax_ge, in_map; auto). lia. }
+    split.
+    + apply lmax_le. intros d Hin. apply in_map_iff in Hin as [y [<- Hy]].
+      apply in_map_iff in Hy as [x [<- Hxl]]. apply H; auto.
+    + intros n Hn. apply in_flat_map in Hn as [y [Hy Hn]]. apply in_map_iff in Hy as [x [<- Hxl]].
+      destruct (H x Hxl (Hx x Hxl)) as [_ Hq]. destruct (Hq n Hn). split; auto.
+      apply in_flat_map. eauto.
+  - destruct (psum_parts_free _ _ Hd) as [Hb Hv]. subst k. rewrite xreplace_PSum. cbn [lookup].
+    destruct (expr_eqb (PSum acc idx) (PSum kb kidx)) eqn:E.
+    + rewrite psum_free_depth, psum_free_nodes by auto. split; [lia|]. intros n [].
+    + cbv zeta. cbn [filter key_not_bound fst].
+      rewrite xreplace_psum_free_id by auto.
+      replace (map (fun p => (fst p, map (xreplace [(PSum kb kidx, v)]) (snd p))) idx) with idx.
+      * split; auto. intros n Hn. split; auto. rewrite flat_PSum_nodes in Hn by auto.
+        destruct Hn as [<-|[]]. intros Heq. rewrite Heq, expr_eqb_refl in E. discriminate.
+      * symmetry. apply map_id_in. intros [i vs] Hp. cbn [fst snd]. f_equal.
+        apply map_id_in. intros y Hy. apply xreplace_psum_free_id. eapply Hv; eauto.
+Qed.
+
+Lemma psum_free_subs_seq sg : forall e,
+  psum_freeb e = true -> (forall k v, In (k, v) sg -> psum_freeb v = true) ->
+  psum_freeb (subs_seq sg e) = true.
+Proof.
+  induction sg as [|[x v] t IH]; intros e He H; auto. rewrite subs_seq_cons. apply IH.
+  - apply psum_free_subs1; auto. eapply H; cbn; eauto.
+  - intros; eapply H; cbn; eauto.
+Qed.
+
+Lemma evaluate_flat_free b idx :
+  wf (PSum b idx) -> depth (PSum b idx) <= 1 -> psum_freeb (evaluate (PSum b idx)) = true.
+Proof.
+  intros Hwf Hd. apply wf_PSum in Hwf as [Wb [Nd Hp]].
+  destruct (psum_parts_free _ _ Hd) as [Hb Hv].
+  cbn [evaluate]. rewrite dict_of_nodup by auto. cbn [psum_freeb]. apply forallb_forall.
+  intros y Hy. apply in_map_iff in Hy as [c [<- Hc]]. apply psum_free_subs_seq; auto.
+  intros k v Hkv. apply in_combine_names in Hkv as [_ Hvc].
+  destruct (product_elem _ _ _ Hc Hvc) as [pl [Hpl Hin]]. unfold pools in Hpl.
+  apply in_map_iff in Hpl as [p [<- Hpi]]. eauto.
+Qed.
+
+Lemma psum_nodes_depth e : forall nd, In nd (psum_nodes e) -> depth nd <= depth e.
+Proof.
+  induction e using expr_ind2; cbn [psum_nodes depth]; intros nd Hn; try (now destruct Hn).
+  - apply in_flat_map in Hn as [x [Hx Hn]]. rewrite Forall_forall in H. specialize (H x Hx nd Hn).
+    assert (depth x <= lmax (map depth l)) by (apply lmax_ge, in_map; auto). lia.
+  - apply in_flat_map in Hn as [x [Hx Hn]]. rewrite Forall_forall in H. specialize (H x Hx nd Hn).
+    assert (depth x <= lmax (map depth l)) by (apply lmax_ge, in_map; auto). lia.
+  - apply in_app_or in Hn as [Hn|Hn]; [specialize (IHe1 nd Hn)|specialize (IHe2 nd Hn)]; lia.
+  - apply in_flat_map in Hn as [x [Hx Hn]]. rewrite Forall_forall in H. specialize (H x Hx nd Hn).
+    assert (depth x <= lmax (map depth l)) by (apply lmax_ge, in_map; auto). lia.
+  - apply in_app_or in Hn as [Hn|Hn]; [specialize (IHe nd Hn); lia|].
+    apply in_app_or in Hn as [Hn|Hn].
+    + apply in_flat_map in Hn as [p [Hp Hn]]. apply in_flat_map in Hn as [v [Hv Hn]].
+      rewrite Forall_forall in H. specialize (H p Hp). rewrite Forall_forall in H.
+      specialize (H v Hv nd Hn).
+      assert (lmax (map depth (snd p)) <= lmax (map (fun p => lmax (map depth (snd p))) idx)).
+      { apply lmax_ge. apply in_map_iff. eauto. }
+      assert (depth v <= lmax (map depth (snd p))) by (apply lmax_ge, in_map; auto). lia.
+    + destruct Hn as [<-|[]]. cbn [depth]. lia.
+Qed.
+
+Lemma fold_flat ns : forall acc,
+  depth acc <= 1 ->
+  (forall n, In n ns -> wf n /\ depth n <= 1 /\ exists b idx, n = PSum b idx) ->
+  (forall n, In n (psum_nodes acc) -> In n ns) ->
+  psum_nodes (fold_left (fun a node => xreplace [(node, evaluate node)] a) ns acc) = [].
+Proof.
+  induction ns as [|k t IH]; intros acc Hd Hns Hsub.
+  - cbn. destruct (psum_nodes acc) as [|n r] eqn:E; auto. exfalso. apply (Hsub n). cbn; auto.
+  - cbn [fold_left]. destruct (Hns k (or_introl eq_refl)) as [Wk [Dk [b [idx ->]]]].
+    destruct (xreplace_flat_step b idx (evaluate (PSum b idx)) acc) as [D' N'];
+      [apply evaluate_flat_free; auto | auto |].
+    apply IH; auto.
+    + intros; apply Hns; cbn; auto.
+    + intros n Hn. destruct (N' n Hn) as [Hin Hne]. destruct (Hsub n Hin) as [<-|H]; [congruence|auto].
+Qed.
+
+Theorem unfold_flat_complete e : wf e -> depth e <= 1 -> psum_freeb (unfold_poolsums e) = true.
+Proof.
+  intros Hwf Hd. apply nodes_nil_psum_free. unfold unfold_poolsums. apply fold_flat; auto.
+  intros n Hn. destruct (psum_nodes_wf e Hwf n Hn) as [Wn Hex]. repeat split; auto.
+  pose proof (psum_nodes_depth e n Hn). lia.
+Qed.
+
+(* HelicityModel.expression leaves no PoolSum when the intensity nests PoolSums at most 2 deep
+   (the shape the builders produce: PoolSum(|sum_t PoolSum(..)|^2, ..)) *)
+Theorem model_expression_complete b idx :
+  wf (PSum b idx) -> depth (PSum b idx) <= 2 -> psum_freeb (model_expression (PSum b idx)) = true.
+Proof.
+  intros Hwf Hd. unfold model_expression. apply unfold_flat_complete.
+  - now apply wf_evaluate.
+  - pose proof (depth_evaluate _ _ Hwf). cbn [depth] in Hd. lia.
+Qed.
